@@ -282,7 +282,9 @@ func oracleC02(r *runner, o *Obs) []Violation {
 		if !ok2 {
 			add("modified", "pre-existing output "+p+" disappeared")
 		} else if a != b {
-			add("modified", fmt.Sprintf("pre-existing output %s changed (inode:mtime:size %s -> %s)", p, b, a))
+			_ = a
+			_ = b
+			add("modified", fmt.Sprintf("pre-existing output %s was replaced or rewritten (its inode / mtime_ns / size changed)", p))
 		} else if c, _ := os.ReadFile(p); string(c) != protected[p] {
 			add("modified", "pre-existing output "+p+" changed its bytes")
 		}
